@@ -28,7 +28,7 @@ for pid in sorted(CLAIMED):
 
 m = {
     "version": 1,
-    "setup_cmd": "cd /verif/engine && GOFLAGS=-mod=mod GOPROXY=off GOSUMDB=off GOTOOLCHAIN=local go build -o ../bin/gosym . && cd /verif && ./check C17 --tier quick --no-evidence >/dev/null 2>&1; true",
+    "setup_cmd": "cd /verif/engine && GOFLAGS=-mod=mod GOPROXY=off GOSUMDB=off GOTOOLCHAIN=local go build -o ../bin/gosym . && cd /verif/sqlcheck && GOFLAGS=-mod=mod GOPROXY=off GOSUMDB=off GOTOOLCHAIN=local go build -o ../bin/sqlcheck . ; cd /verif && ./check C17 --tier quick --no-evidence >/dev/null 2>&1; true",
     "hooks": {
         "guard": "verif",
         "enable": "none needed: harness sources under /verif/harness are injected into the build of /repo with go/packages Overlay (symbolic) and `go test -overlay` (native replay); /repo is never modified and no file in /repo uses the tag",
@@ -40,7 +40,7 @@ m = {
         "name": "gosym",
         "path": "/verif/engine",
         "serves_properties": sorted(CLAIMED),
-        "kind_free_text": "symbolic interpreter for go/ssa (x/tools v0.29.0) over bit-vector terms with one persistent z3 -in session per worker; decision-vector DFS; reflect model over go/types; harnesses are Go code injected by overlay, also compiled natively for replay and differential validation",
+        "kind_free_text": "(C12 additionally: /verif/sqlcheck replays the statement traces of the relational model on SQLite) symbolic interpreter for go/ssa (x/tools v0.29.0) over bit-vector terms with one persistent z3 -in session per worker; decision-vector DFS; reflect model over go/types; harnesses are Go code injected by overlay, also compiled natively for replay and differential validation",
     }],
     "checks": checks,
     "not_applicable": [{"property_id": k, "reason": v} for k, v in sorted(NA.items())],
